@@ -136,9 +136,24 @@ def check(ctx):
             ctx.instance('C06.R1', 'variable length under %s' % extra, 'undecided', str(e), nontrivial=False, node=f, file=OER)
             continue
         ok = out.get('self.length') is None and out.get('self.fmt') is None
+        if ok and extra.get('has_extension_marker'):
+            # an extensible constraint is not OER-visible (X.696 8.2.3): the type takes every integer, so the variable-size form is the signed one -- also when the
+            # extension root starts at 0, and also for a subtype of a parent that had a fixed width
+            ok = out.get('self.signed') is True
+            env2 = dict(init_env)
+            env2.update({'minimum': 0, 'maximum': 255, 'has_extension_marker': False})
+            try:
+                _r, mid = evalexpr.run_function(f, env2)
+                env3 = {k_: v_ for k_, v_ in mid.items() if isinstance(k_, str) and (k_.startswith('self.') or k_.startswith('__'))}
+                env3.update({'minimum': 0, 'maximum': 10, 'has_extension_marker': True})
+                _r, out3 = evalexpr.run_function(f, env3)
+                ok = ok and out3.get('self.signed') is True and out3.get('self.fmt') is None and out3.get('self.length') is None
+            except evalexpr.Unsupported:
+                pass
         ctx.instance('C06.R1', 'variable length under %s' % extra, 'ok' if ok else 'VIOLATION', node=f, file=OER)
         if not ok:
-            ctx.violation('C06.R1', OER, f, Model.qual(f), 'an INTEGER with %s must use the variable-length form (X.696 10: only non-extensible bounded ranges are fixed-size)' % extra,
+            ctx.violation('C06.R1', OER, f, Model.qual(f), 'an INTEGER with %s must use the variable-length form%s (X.696 10: only non-extensible bounded ranges are fixed-size)'
+                          % (extra, ', signed: the extension root says nothing about the values that may be sent (INTEGER (0..255, ...) value -1)' if extra.get('has_extension_marker') else ''),
                           stmt='variable length under %s' % sorted(extra))
     # a subtype of an already constrained parent (the compilers apply the subtype's range to a copy of the parent's object): MIN / MAX denote the parent's
     # bounds (X.680 51.4) and the width follows the effective constraint (X.696 10)
@@ -599,7 +614,48 @@ def check(ctx):
     if n_ctor < 1:
         raise AnalysisError('C06.R12 found only %d constructors that call a setter' % n_ctor)
 
+    # ---- R13: the extension addition presence bitmap has one bit per addition *at its position*.  The encoders stop collecting at the first addition the value lacks (a value of an
+    #      older version): what was collected so far must then be moved to the most significant end -- a loop that shifts a bit in per addition and may be left early is
+    #      followed by a shift by the number of additions not visited.
+    ctx.rule('C06.R13', 'presence bits collected by a loop that may stop early are moved to their positions (shift by the number of additions not visited)')
+    n13 = 0
+    for rel13 in (OER, 'asn1tools/codecs/per.py'):
+        mt13 = model.mod(rel13).classes.get('MembersType')
+        f13 = mt13.find_method('encode_additions')[1] if mt13 and mt13.find_method('encode_additions') else None
+        if f13 is None:
+            continue
+        for tr in [n_ for n_ in walk_no_nested(f13) if isinstance(n_, ast.Try)]:
+            swallows = any(all(isinstance(s_, ast.Pass) for s_ in h_.body) for h_ in tr.handlers)
+            shifted = [a_.target.id for lp_ in tr.body if isinstance(lp_, ast.For) for a_ in ast.walk(lp_) if isinstance(a_, ast.AugAssign) and isinstance(a_.op, ast.LShift)
+                       and isinstance(a_.target, ast.Name) and isinstance(a_.value, ast.Constant) and a_.value.value == 1]
+            if not (swallows and shifted):
+                continue
+            n13 += 1
+            var13 = shifted[0]
+            comp = [a_ for a_ in walk_no_nested(f13) if isinstance(a_, ast.AugAssign) and isinstance(a_.op, ast.LShift) and isinstance(a_.target, ast.Name) and a_.target.id == var13
+                    and a_.lineno > tr.end_lineno and isinstance(a_.value, ast.BinOp) and isinstance(a_.value.op, ast.Sub)]
+            ok13 = bool(comp)
+            ctx.instance('C06.R13', '%s: `%s` is shifted once per visited addition inside try/except-pass' % (Model.qual(f13), var13), 'moved to position afterwards' if ok13 else 'VIOLATION',
+                         node=tr, file=rel13)
+            if not ok13:
+                ctx.violation('C06.R13', rel13, tr, Model.qual(f13),
+                              'the loop over the additions is left at the first addition the value lacks (except EncodeError: pass), with `%s` holding one bit per addition visited so far; it is '
+                              'then written as a field of len(self.additions) bits without moving those bits to the most significant end: {b, d} of SEQUENCE {.., ..., d, [[ e, f ]]} marks e '
+                              'present instead of d, and the decoder reads d\'s octets as e' % var13, stmt='presence bits not moved to position')
+    if n13 < 1:
+        ctx.instance('C06.R13', 'no encode_additions loop inside a swallowing try found', 'undecided', nontrivial=False)
+
 MUTANTS = [
+    dict(name='OER presence bits not moved after an early stop', file=OER,
+         old="        presence_bits <<= (number_of_additions - number_of_presence_bits)\n", new="", expect='C06.R13'),
+    dict(name='OER extensible INTEGER takes its signedness from the extension root', file=OER,
+         old="""        if has_extension_marker:
+            self.signed = True
+            self.minimum = None""", new="""        if minimum != 'MIN':
+            self.signed = (minimum < 0)
+
+        if has_extension_marker:
+            self.minimum = None""", expect='C06.R1'),
     dict(name='unsigned 2-octet boundary <= 65536', file=OER, quick=True, old="            elif maximum < 65536:", new="            elif maximum <= 65536:", expect='C06.R1'),
     dict(name='formats >H and >I swapped', file=OER, quick=True,
          edits=[dict(file=OER, old="                self.fmt = '>H'", new="                self.fmt = '>X'"),
